@@ -24,7 +24,11 @@ def corpus():
 
 
 def rand_chart(rng):
-    return [G.stripped(rng) for _ in range(5)] + [G.rand_notes(rng, True), [G.rand_value(rng) for _ in range(rng.choice([0, 0, 0, 1, 3]))]]
+    spec = [G.stripped(rng) for _ in range(5)] + [G.rand_notes(rng, True), [G.rand_value(rng) for _ in range(rng.choice([0, 0, 0, 1, 3]))]]
+    if rng.random() < 0.15:
+        order = list(range(6)); rng.shuffle(order)
+        spec.append(order)
+    return spec
 
 
 def gen(rng, i, tier):
@@ -56,16 +60,26 @@ def gen(rng, i, tier):
         if rng.random() < 0.08:
             if rng.random() < 0.5:
                 ops.append(["ser"])
-            ops.append(rng.choice([["pop", G.rand_key(rng, G.SM_EDIT_KEYS)], ["popitem"], ["move", G.rand_key(rng, G.SM_EDIT_KEYS), rng.random() < 0.5]]))
+            ops.append(rng.choice([["pop", G.rand_key(rng, G.SM_EDIT_KEYS)], ["popitem"], ["move", G.rand_key(rng, G.SM_EDIT_KEYS), rng.random() < 0.5],
+                                   ["cmove", rng.randrange(4), rng.choice(["STEPSTYPE", "DESCRIPTION", "DIFFICULTY", "METER", "RADARVALUES", "NOTES"]), rng.random() < 0.5]]))
     for op in ops:
         if op[0] == "field":
             op[3] = G.rand_notes(rng, True) if op[2] == "notes" else G.stripped(rng)
     return {"start": rng.choice(["blank"] * 8 + ["empty"] * 7 + ["corpus"]), "ops": ops}
 
 
+FIELDS = ["stepstype", "description", "difficulty", "meter", "radarvalues", "notes"]
+
+
 def mk_chart(spec):
     from simfile.sm import SMChart
-    c = SMChart.from_msd(spec[:6])
+    if len(spec) > 7 and spec[7]:
+        # built empty and filled in another order: the mapping's key order differs, the chart is the same chart
+        c = SMChart()
+        for i in spec[7]:
+            setattr(c, FIELDS[i], spec[i].strip())
+    else:
+        c = SMChart.from_msd(spec[:6])
     if spec[6]:
         c.extradata = list(spec[6])
     return c
@@ -109,6 +123,8 @@ def build(c):
                     sf.popitem()
             elif op[0] == "move":
                 sf.move_to_end(op[1], last=op[2])
+            elif op[0] == "cmove":
+                sf.charts[op[1]].move_to_end(op[2], last=op[3])
             elif op[0] == "extrapop":
                 ex = sf.charts[op[1]].extradata
                 if ex:
